@@ -25,7 +25,7 @@ TECHNIQUE = ("(i) symbolic path exploration of the real mirror_descent_auto cont
 BOUNDS = {
     "quick": "(i) oracles {approx, convex, pairwise}, iters 3 (<= 2 loss rises per path) and 55 (<= 1 rise, so that the t > 50 branch is reached), post-loop cut to 2 rounds; "
              "(ii) iters 1, two measurement families, sizes (2,2,2)",
-    "thorough": "(i) iters in {3, 52, 55, 60} with <= 3 resp. <= 2 rises; (ii) three families, also iters 2 for 'approx'",
+    "thorough": "(i) iters 3 (<= 3 rises), 52 (<= 2 rises), 55 and 60 (<= 1 rise); (ii) three families, also iters 2 for 'approx'",
 }
 OUTSIDE = ("'fit no worse than the uniform start', the feasibility tolerance of the convex oracle and equality with exact estimation on disjoint cliques "
            "(limit / optimum statements); marginal_oracle='pairwise-convex' (cvxopt is not installed)")
@@ -53,7 +53,7 @@ def configs(tier, seed):
     cfgs = []
     for oracle in ("approx", "convex", "pairwise"):
         for iters in ([3, 55] if tier == "quick" else [3, 52, 55, 60]):
-            rises = (2 if iters <= 3 else 1) if tier == "quick" else (3 if iters <= 3 else 2)
+            rises = (2 if iters <= 3 else 1) if tier == "quick" else (3 if iters <= 3 else (2 if iters == 52 else 1))
             cfgs.append(dict(name="skeleton:%s:iters%d" % (oracle, iters), kind="skeleton", oracle=oracle, iters=iters,
                              rises=rises, cost=iters, timeout=2400))
     fams = ["two_overlap", "oneway"] + (["disconnected"] if tier == "thorough" else [])
